@@ -197,7 +197,9 @@ def _rtol(path, kappa, lmin=1.0):
         floor = max(math.sqrt(CG_EPS_CONST / max(lmin, 1e-300)), CG_RESIDUAL)
         rt += C_CG * k * floor
     elif path == "lanczos":
-        rt += 16.0 * LANCZOS_JITTER + C_DIRECT * U64 * k * k
+        # the jitter shifts every Ritz value by j * min diag(T) <= j * lambda_max: relative to lambda_min (inverse-type entry
+        # points differentiate A^{-1}) that is j * kappa
+        rt += 16.0 * LANCZOS_JITTER * k + C_DIRECT * U64 * k * k
     elif path == "ciq":
         rt += CIQ_TOL * k
     return rt
